@@ -11,8 +11,8 @@ open Pandora.Model.C17
 
 /-- `newDecoderConfig` + position of `VariableInjectHook` in `DefaultHooks()` are the model's flags -/
 theorem flags_eq :
-    (⟨Gen.Config.errorUnused, Gen.Config.zeroFields, Gen.Config.defaultHooks.head? == some "VariableInjectHook"⟩ : Flags)
-      = repoFlags := by decide
+    (⟨Gen.Config.errorUnused, Gen.Config.zeroFields, Gen.Config.defaultHooks.head? == some "VariableInjectHook",
+      Gen.Config.defaultHooks.contains "WholeNumberHook"⟩ : Flags) = repoFlags := by decide
 
 /-- the model covers the strict kind switch only -/
 theorem weaklyTyped_off : Gen.Config.weaklyTypedInput = false := rfl
@@ -25,15 +25,22 @@ theorem other_flags : Gen.Config.squashFlag = false ∧ Gen.Config.errorUnset = 
 theorem decoderFields_eq :
     Gen.Config.decoderFields = ["DecodeHook", "ErrorUnused", "Result", "TagName", "WeaklyTypedInput", "ZeroFields"] := rfl
 
-/-- the hook chain: placeholders first, then the text / duration / url / ip / size hooks, then (core/import) the sink
+/-- the hook chain: placeholders first, then the whole-number guard, the text / duration / url / ip / size hooks, then (core/import) the sink
 string shortcut, the schedule list shortcut and the two plugin hooks — the order `decode` applies them in -/
 theorem hooks_eq :
     Gen.Config.hooksInit = "DefaultHooks()" ∧
-    Gen.Config.defaultHooks = ["VariableInjectHook", "DebugHook", "TextUnmarshallerHook",
+    Gen.Config.defaultHooks = ["VariableInjectHook", "WholeNumberHook", "DebugHook", "TextUnmarshallerHook",
       "mapstructure.StringToTimeDurationHookFunc()", "StringToURLHook", "StringToIPHook", "StringToDataSizeHook"] ∧
     Gen.Config.importHooks = ["sinkStringHook", "scheduleSliceToCompositeConfigHook", "pluginconfig.AddHooks()"] ∧
     Gen.Config.pluginHooks = ["Hook", "FactoryHook"] ∧
     Gen.Config.pluginNameKey = "type" := ⟨rfl, rfl, rfl, rfl, rfl⟩
+
+/-- `WholeNumberHook` as `decodeScalarWith` has it: only a float source, only integer target kinds (time.Duration is
+an int64), refused when the number has a fractional part (`fractional`) -/
+theorem whole_number_hook :
+    Gen.Config.wholeNumberPass = "f != reflect.Float32 && f != reflect.Float64" ∧
+    Gen.Config.wholeNumberKinds = ["Int", "Int8", "Int16", "Int32", "Int64", "Uint", "Uint8", "Uint16", "Uint32", "Uint64"] ∧
+    Gen.Config.wholeNumberRefuses = "math.IsInf(v, 0) || v != math.Trunc(v)" := ⟨rfl, rfl, rfl⟩
 
 /-- the registered resolvers are the ones `resolveTag` knows: `""` and `env` read the environment, `property` a file -/
 theorem resolvers_eq :
@@ -48,6 +55,41 @@ theorem resolver_errors :
     Gen.Config.envUnsetIsError = true ∧ Gen.Config.propertyMissingIsError = true ∧
     Gen.Config.propertyErrorReturns.length = 3 ∧
     Gen.Config.resolverErrorReturned = true ∧ Gen.Config.unregisteredTagSkipped = true := ⟨rfl, rfl, rfl, rfl, rfl⟩
+
+/-- `propertyTokenResolver` as `lookupProp` / `findProp` / `lineKV` have it: the argument is cut at the first `#`; the
+file is read line by line; only a line that contains `=` is an entry; it is split at its FIRST `=` and the left part is
+compared with the key by `==` (exact: no prefix, no trimming, no case folding); the first match returns the right part -/
+theorem property_lookup :
+    Gen.Config.propertyCut = "filename, property, ok := strings.Cut(in, \"#\")" ∧
+    Gen.Config.propertyLoop = ["for scanner.Scan()", "line := scanner.Text()", "if strings.Contains(line, \"=\") {",
+      "kv := strings.SplitN(line, \"=\", 2)", "if kv[0] == property {", "return kv[1], nil", "}", "}"] := ⟨rfl, rfl⟩
+
+/-- the plugin hooks as the `plugin` case of `decode` has them: exactly one string `type` key (compared lower-cased), and
+the fillConf closure ALWAYS runs `config.DecodeAndValidate(confData, conf)` on the rest of the block — also when the rest
+is empty — and returns its error; `Hook` / `FactoryHook` hand that closure to `plugin.New` / `plugin.NewFactory` -/
+theorem plugin_fill :
+    Gen.Config.parseConfConds = ["tag.Debug", "err != nil", "PluginNameKey == strings.ToLower(key)", "!ok",
+      "len(names) == 0", "len(names) > 1"] ∧
+    Gen.Config.fillConfStmts = ["if tag.Debug", "err := config.DecodeAndValidate(confData, conf)", "if err != nil", "return err"] ∧
+    Gen.Config.fillConfReturns = ["return err"] ∧
+    Gen.Config.pluginHookCalls = ["Hook: plugin.New(t, name, fillConf)", "FactoryHook: plugin.NewFactory(t, name, fillConf)"] :=
+  ⟨rfl, rfl, rfl, rfl⟩
+
+/-- `DecodeAndValidate` = `Decode`, then (only without error) `Validate` — `settle` / `decodeAndValidate` -/
+theorem decode_then_validate :
+    Gen.Config.decodeAndValidateStmts = ["err := Decode(conf, result)", "if err != nil {", "return err", "}", "return Validate(result)"] ∧
+    Gen.Config.validateStmts = ["return errors.WithStack(defaultValidator.Struct(value))"] := ⟨rfl, rfl⟩
+
+/-- the validator reads the `validate` tag; the repo's own validations (`min-time`, `endpoint` are the ones `tagFail`
+models) are registered under these names and decide as `tagFail` says (`min <= t`; `host:port` with an optional host) -/
+theorem validator_table :
+    Gen.Config.validateTagName = "validate" ∧
+    Gen.Config.registeredValidations = [("min-time", "MinTimeValidation"), ("max-time", "MaxTimeValidation"),
+      ("min-size", "MinSizeValidation"), ("max-size", "MaxSizeValidation"), ("endpoint", "EndpointStringValidation"),
+      ("url-path", "URLPathStringValidation")] ∧
+    Gen.Config.validationReturns = [("MinTimeValidation", "ok && min <= t"),
+      ("EndpointStringValidation", "err == nil && (host == \"\" || govalidator.IsHost(host)) && govalidator.IsPort(port)")] :=
+  ⟨rfl, rfl, rfl⟩
 
 /-- the grammar `scan` models and the condition under which the resolved text is cast -/
 theorem tag_grammar :
